@@ -80,7 +80,10 @@ def _quota():
 class Monitor:
     """One app monitor process on its own cell."""
 
-    def __init__(self):
+    def __init__(self, frac=0.0):
+        # the monitor's clock is not aligned on whole seconds: every reading is T0 + clock + frac (the model's
+        # time is `clock`; intervals are unchanged, so every clause reads the same)
+        self.frac = frac
         self.clock = 0                      # integer seconds since T0
         self.store = zkfake.ZkStore(clock=lambda: T0 + self.clock)
         self.zk = zkfake.ZkFakeClient(self.store)       # the monitor's connection
@@ -113,7 +116,7 @@ class Monitor:
 
         class Shim:
             def time(self):
-                return float(T0 + mon.clock)
+                return float(T0 + mon.clock) + mon.frac
 
             def sleep(self, _s):
                 mon._done.release()
@@ -271,10 +274,10 @@ class Monitor:
         for app, conf in st['monitors'].items():
             mon[app] = dict(count=int(conf['count']),
                             avail=int(round(conf['available'] * 1e6)),
-                            last=int(round(conf['last_update'] - T0)),
+                            last=int(round(conf['last_update'] - T0 - self.frac)),
                             policy=conf.get('policy') or '',
                             rate=int(round(conf['rate'] * 3600 * 1e6)))
-        susp = {app: int(round(until - T0)) for app, until in st['suspended'].items()}
+        susp = {app: int(round(until - T0 - self.frac)) for app, until in st['suspended'].items()}
         view = {app: _insts(lst) for app, lst in st['scheduled'].items() if lst}
         zk = {}
         for inst in self.store.children(z.SCHEDULED):
@@ -286,11 +289,11 @@ class Monitor:
         reader = {}
         for app in self.store.children(z.path.appmonitor()):
             until = masterapi.get_appmonitor(self.env, app)['suspend_until']
-            reader[app] = -1 if until is None else int(round(until - T0))
+            reader[app] = -1 if until is None else int(round(until - T0 - self.frac))
         return dict(now=self.clock, mon=mon, susp=susp, view=view,
                     zk={a: _insts(l) for a, l in zk.items()},
-                    pub={a: int(round(v - T0)) for a, v in pub.items()},
-                    waited={a: int(round(v - T0)) for a, v in self.waited.items()},
+                    pub={a: int(round(v - T0 - self.frac)) for a, v in pub.items()},
+                    waited={a: int(round(v - T0 - self.frac)) for a, v in self.waited.items()},
                     reader=reader)
 
 
@@ -300,7 +303,8 @@ def _insts(names):
 
 def replay(history):
     """history (list of steps) -> trace lines; line 1 = initial state."""
-    m = Monitor()
+    # every third history runs on a clock 0.9 s off the whole second, every third 0.25 s
+    m = Monitor((0.0, 0.9, 0.25)[len(history) % 3])
     try:
         lines = [dict(ev='Init', post=m.project())]
         for step in history:
